@@ -9,6 +9,19 @@ from .loader import parse_file, unparse
 TYPEFN = {"_aztype": "azimuthal", "_ltype": "longitudinal", "_ttype": "temporal"}
 
 
+def _subst(node, env):
+    """copy of the expression with Name loads bound in env replaced by their (already substituted) defining expressions"""
+    import copy
+
+    class T(ast.NodeTransformer):
+        def visit_Name(self, n):
+            if isinstance(n.ctx, ast.Load) and n.id in env:
+                return copy.deepcopy(env[n.id])
+            return n
+
+    return ast.fix_missing_locations(T().visit(copy.deepcopy(node)))
+
+
 class DispatchSummary:
     def __init__(self, path, fn: ast.FunctionDef):
         self.path = path
@@ -32,6 +45,18 @@ class DispatchSummary:
 
     def _parse(self):
         body = [s for s in self.fn.body if not (isinstance(s, ast.Expr) and isinstance(s.value, ast.Constant))]
+        # single-assignment locals are names for sub-expressions: substitute them, so that a dispatcher written with temporaries
+        # (signature = (...); flavor = ...; result = compute(...)) is read like the nested one-expression form
+        pre: dict = {}
+        while body and isinstance(body[0], ast.Assign) and len(body[0].targets) == 1 and isinstance(body[0].targets[0], ast.Name) \
+                and unparse(body[0].targets[0]) not in ("function",):
+            nm = body[0].targets[0].id
+            if nm in pre or nm in self.params:
+                break
+            pre[nm] = _subst(body[0].value, pre)
+            body = body[1:]
+        if body and isinstance(body[0], ast.Assign):
+            body = [ast.Assign(targets=body[0].targets, value=_subst(body[0].value, pre), lineno=body[0].lineno)] + body[1:]
         if not body or not isinstance(body[0], ast.Assign):
             self.problems.append("first statement is not `function, *returns = _from_signature(...)`")
             return
@@ -68,12 +93,18 @@ class DispatchSummary:
         else:
             self.problems.append("with-block is not numpy.errstate(...)")
         env = {}
+        nodes = dict(pre)
         ret = None
         for st in w.body:
-            if isinstance(st, ast.Assign) and isinstance(st.targets[0], ast.Name):
-                env[st.targets[0].id] = unparse(st.value)
+            if isinstance(st, ast.Assign) and isinstance(st.targets[0], ast.Name) and len(st.targets) == 1:
+                nm = st.targets[0].id
+                if nm in nodes:
+                    self.problems.append(f"local {nm} assigned twice in dispatch()")
+                val = _subst(st.value, nodes)
+                nodes[nm] = val
+                env[nm] = unparse(val)
             elif isinstance(st, ast.Return):
-                ret = st.value
+                ret = _subst(st.value, nodes) if st.value is not None else None
             else:
                 self.problems.append(f"unexpected statement in with-block: {unparse(st)[:60]}")
         if ret is None:
